@@ -137,6 +137,117 @@ def check_fallthrough(ctx, R="C04.exhaustive"):
         ctx.finding(R, fn, "MeshVolumeRegion.intersects exhaustive", "the exhaustive pass of MeshVolumeRegion.intersects is not `not isinstance(self.intersect(other), EmptyRegion)`")
 
 
+def check_computed(ctx, R="C04.computed"):
+    ctx.rule(
+        R,
+        "computed early answers are exact: every non-constant `return` of the multi-pass overlap / containment tests is one of the "
+        "recognised exact predicates for the case its guards select (frozen table, one reason each): delegation to the general test, "
+        "emptiness of the boolean intersection / difference, the exact collision query, the exact polygon containment of the exact "
+        "footprint, all vertices inside a CONVEX container, and -- for single-body solids without surface contact -- the SYMMETRIC "
+        "interior-point test (either solid contains an interior point of the other).  A one-sided or sampled test answers wrongly for some "
+        "configurations",
+    )
+    model = ctx.model
+    n = 0
+    for mod, q, role in TARGETS:
+        fn = model.func(mod, q)
+        a, b = fn.args.args[0].arg, fn.args.args[1].arg
+        for r in sorted(lib.returns_of(fn), key=lambda x: x.lineno):
+            if r.value is None or isinstance(r.value, ast.Constant):
+                continue
+            n += 1
+            t = lib.role_text(fn, r.value)
+            guards = " && ".join(unparse(g) for g, p in lib.path_conditions(r, fn) if p)
+            why = None
+            if t.startswith(("super().intersects(", f"{a}.intersects(", "super().containsObject(")):
+                why = "delegation to the general test"
+            elif t in (f"not isinstance({a}.intersect({b}), EmptyRegion)", f"isinstance({b}.occupiedSpace.difference({a}), EmptyRegion)", f"isinstance({b}.difference({a}), EmptyRegion)"):
+                why = "emptiness of the exact boolean operation"
+            elif "in_collision_internal" in t or "fcl.collide" in t or ("collision" in t and "surface" in t):
+                why = "exact surface collision query"
+            elif t in (f"{a}.polygons.contains({b}._boundingPolygon)", f"{a}.polygons.covers({b}._boundingPolygon)"):
+                why = "exact polygon containment of the object's exact footprint"
+            elif "signed_distance" in t and ".all(" in t.replace("numpy.all(", ".all(") and f"{a}.isConvex" in guards:
+                why = "all vertices strictly inside a convex container"
+            elif t == f"{a}.containsPoint({b}.mesh.vertices[0])" and "MeshSurfaceRegion" in guards:
+                why = "a connected surface without contact is wholly inside or outside: one vertex decides"
+            else:
+                # the symmetric interior-point test
+                parts = sorted(unparse(v) for v in r.value.values) if isinstance(r.value, ast.BoolOp) and isinstance(r.value.op, ast.Or) else []
+                parts = sorted(lib.role_text(fn, v) for v in r.value.values) if parts else []
+                if parts == sorted([f"{a}._containsPointExact({b}._interiorPoint)", f"{b}._containsPointExact({a}._interiorPoint)"]) and "_bodyCount == 1" in guards:
+                    why = "single-body solids without surface contact: one contains the other iff it contains an interior point of the other (tested both ways)"
+            if why:
+                ctx.ok(R, r, f"{q}: `{norm_text(r.value, 60)}` is exact here: {why}")
+            else:
+                ctx.finding(
+                    R,
+                    r,
+                    f"{q}: inexact computed answer {t[:70]}",
+                    f"{q}: under `{guards or 'no guard'}` the test answers `{norm_text(r.value, 90)}`, which is none of the exact predicates for that case (e.g. a one-sided interior-point test misses a solid "
+                    f"lying inside the other; 'all vertices inside' is containment only for a convex container): some configurations get a wrong overlap / containment verdict",
+                )
+    ctx.floor(R, n, 8, "computed returns of the overlap / containment tests")
+
+
+def check_transforms(ctx, R="C04.transform"):
+    ctx.rule(
+        R,
+        "precomputed geometry is moved with the transform it was computed for: data of the unit-sized shape (`self._shape.*`) is mapped by "
+        "`_shapeTransform` (scale + rotation + translation); data of the already scaled shape (`self._scaledShape.*`) only by "
+        "`_rigidTransform` (rotation + translation).  Applying the scaling transform to already scaled data scales it twice, so the interior "
+        "point the overlap shortcuts rely on lies outside the solid",
+    )
+    model = ctx.model
+    n = 0
+    PAIR = {"_scaledShape": "_rigidTransform", "_shape": "_shapeTransform"}
+    for ci in model.classes.values():
+        if ci.module.name != RG:
+            continue
+        for mn, fn in ci.methods.items():
+            uses = [a for a in walk_local(fn) if isinstance(a, ast.Attribute) and a.attr in ("_rigidTransform", "_shapeTransform") and isinstance(a.ctx, ast.Load) and unparse(a.value) == "self"]
+            for u in uses:
+                st = lib.statement_of(u)
+                # the data the transform is applied to: precomputed-shape attributes read in the statement (through locals)
+                txt = unparse(st)
+                # follow locals to their nearest preceding definition (the two branches define `raw` differently)
+                frontier, seen_ = [st], set()
+                for _ in range(3):
+                    nxt = []
+                    for node in frontier:
+                        for nm in lib.names_loaded(node):
+                            defs = [a_ for a_ in walk_local(fn) if isinstance(a_, ast.Assign) and any(isinstance(t_, ast.Name) and t_.id == nm for t_ in a_.targets) and a_.lineno < st.lineno]
+                            if defs:
+                                d_ = max(defs, key=lambda a_: a_.lineno)
+                                if id(d_) not in seen_:
+                                    seen_.add(id(d_))
+                                    txt += " ; " + unparse(d_.value)
+                                    nxt.append(d_.value)
+                    frontier = nxt
+                srcs = {k for k in PAIR if f"self.{k}." in txt or f"self.{k} " in txt or f"(self.{k} or" in txt or f"or self.{k})" in txt}
+                # `self._scaledShape or self._shape` mentions both
+                if "self._scaledShape" in txt:
+                    srcs.add("_scaledShape")
+                if "self._shape." in txt or "self._shape)" in txt or "or self._shape" in txt:
+                    srcs.add("_shape")
+                if not srcs:
+                    continue
+                n += 1
+                bad = [k for k in srcs if PAIR[k] != u.attr]
+                if bad:
+                    ctx.finding(
+                        R,
+                        u,
+                        f"{ci.name}.{mn}: {u.attr} applied to data of {bad}",
+                        f"{ci.name}.{mn}: `{norm_text(st, 90)}` applies self.{u.attr} to data taken from self.{bad[0]}, which needs self.{PAIR[bad[0]]}: "
+                        + ("already scaled data is scaled a second time" if bad[0] == "_scaledShape" else "unit-sized data is not scaled")
+                        + ", so the precomputed point / hull no longer belongs to the solid",
+                    )
+                else:
+                    ctx.ok(R, u, f"{ci.name}.{mn}: data of {sorted(srcs)} moved by self.{u.attr}")
+    ctx.floor(R, n, 1, "applications of a precomputed-shape transform")
+
+
 def check_planar(ctx, R="C04.planar"):
     ctx.rule(
         R,
@@ -221,6 +332,8 @@ def check_planar(ctx, R="C04.planar"):
 
 
 def check(ctx):
+    check_computed(ctx)
+    check_transforms(ctx)
     check_polarity(ctx)
     check_fallthrough(ctx)
     check_planar(ctx)
